@@ -150,11 +150,11 @@ func solveAll(obls []*Obligation, workDir string, secs int, workers int) {
 					return
 				}
 				if st != "sat" {
-					// the ground query is large: cvc5 is often faster than z3 on big quantifier-free array problems
-					st2, out2, dur2 := runSolver(context.Background(), solvers[2], lfile, 2*liteSecs(secs))
-					if st2 == "unsat" {
+					// the ground query is large: cvc5 and the newer z3 are often faster than z3 4.8 on big
+					// quantifier-free array / linear arithmetic problems; race the two
+					if name, out2, dur2, ok := raceUnsat(lfile, 2*liteSecs(secs), solvers[2], solvers[1]); ok {
 						fi, _ := os.Stat(lfile)
-						o.Result = &SolveResult{Status: "unsat", Solver: solvers[2].name + "(ground)", TimeS: dur + dur2, Output: out2, File: lfile, Bytes: int(fi.Size()), Tried: []string{"ground:z3:" + st, "ground:cvc5:unsat"}}
+						o.Result = &SolveResult{Status: "unsat", Solver: name + "(ground)", TimeS: dur + dur2, Output: out2, File: lfile, Bytes: int(fi.Size()), Tried: []string{"ground:z3:" + st, "ground:" + name + ":unsat"}}
 						return
 					}
 				}
@@ -169,6 +169,34 @@ func solveAll(obls []*Obligation, workDir string, secs int, workers int) {
 		}(i, o)
 	}
 	wg.Wait()
+}
+
+// raceUnsat runs the given solvers on one file concurrently and reports the first "unsat".
+func raceUnsat(file string, secs int, sps ...solverSpec) (name, out string, dur float64, ok bool) {
+	type ans struct {
+		st, out, name string
+		dur           float64
+	}
+	ctx, cancel := context.WithCancel(context.Background())
+	defer cancel()
+	ch := make(chan ans, len(sps))
+	for _, sp := range sps {
+		go func(sp solverSpec) {
+			s, o, d := runSolver(ctx, sp, file, secs)
+			ch <- ans{s, o, sp.name, d}
+		}(sp)
+	}
+	var worst float64
+	for range sps {
+		a := <-ch
+		if a.dur > worst {
+			worst = a.dur
+		}
+		if a.st == "unsat" {
+			return a.name, a.out, a.dur, true
+		}
+	}
+	return "", "", worst, false
 }
 
 func safeName(s string) string {
@@ -224,8 +252,8 @@ func retryFailed(obls []*Obligation, workDir string, secs int) int {
 			os.WriteFile(lfile, []byte("; retry of "+o.ID+"\n"+lite), 0o644)
 			st, out, dur := runSolver(context.Background(), solvers[0], lfile, 30)
 			if st != "unsat" && st != "sat" {
-				if st2, out2, dur2 := runSolver(context.Background(), solvers[2], lfile, 60); st2 == "unsat" {
-					st, out, dur = st2, out2, dur+dur2
+				if _, out2, dur2, ok := raceUnsat(lfile, 60, solvers[2], solvers[1]); ok {
+					st, out, dur = "unsat", out2, dur+dur2
 				}
 			}
 			if st == "unsat" {
